@@ -272,9 +272,16 @@ META = {
                    "every old one; a bare name goes to octave 4 in an empty container and otherwise at or above the top note, "
                    "less than an octave above it (list.sort modelled as a stable insertion sort driven by Note.__lt__); "
                    "add_notes(other container) on receivers of 0..1 and arguments of 0..2 notes: the receiver keeps its OWN "
-                   "list, the argument is left as it was, the result holds exactly the pitches of both.",
+                   "list, the argument is left as it was, the result holds exactly the pitches of both; remove_note (0..3 "
+                   "notes; by name: that name in every octave, with an octave only that one; by Note: every note of that "
+                   "pitch) keeps exactly the other notes, in order, as the same objects; is_consonant / "
+                   "is_perfect_consonant / is_imperfect_consonant (0..4 notes) are true exactly when EVERY pair satisfies "
+                   "the pairwise predicate and is_dissonant exactly when SOME pair is dissonant (its complement with the "
+                   "fourths flag inverted, the reading the driver uses too); get_note_names lists every name once in order "
+                   "of first occurrence.",
         level_note=TB + " The deductive piece is bounded in container size (<= 2 notes before the call), unbounded in pitches.",
-        explanation="Deductive: NoteContainer.add_note (Note and bare-name forms) on containers of <= 2 notes, add_notes(container). Bounded: "
+        explanation="Deductive: NoteContainer.add_note (Note and bare-name forms), add_notes(container), remove_note (2 forms), the four "
+                    "consonance predicates, get_note_names. Bounded: "
                     "bounded/drivers/C12.py.",
     ),
     "C13": dict(
